@@ -1,6 +1,7 @@
 (** Property C07 -- erase, insert and delete touch exactly their extent.
     Only pinned statements, closed by [exact], with their assumptions printed. *)
 From Avt Require Import Oracles.Step Proofs.Inv Proofs.VisEq Proofs.BufRow Proofs.SpecEdit.
+From Avt Require Import Gen.BufFns Proofs.BufTie.
 
 (** ED (4 selectors), EL (3), ECH, ICH, DCH, DECALN: from every state satisfying the invariant the control function yields exactly the specified screen (closed formula per cell), cursor and modes; everything outside the extent is unchanged. *)
 Theorem C07_edit : forall t f e, TInv t -> spec_edit t f = Some e -> exists t', execute t f = Ok t' /\ vis_norm e = vis_norm t'.
@@ -18,3 +19,21 @@ Theorem C07_erase : forall b col row m p, BGeom b -> row < brows b -> col <= bco
 Proof. exact buf_erase_spec. Qed.
 Check C07_erase : forall b col row m p, BGeom b -> row < brows b -> col <= bcols b -> buf_erase b col row m p = Ok (bset b (erase_view b col row m p)) /\ BGeom (bset b (erase_view b col row m p)).
 Print Assumptions C07_erase.
+
+(** SOURCE TIE BY PROOF: the function is REGENERATED from the Rust source on every run (Gen/BufFns.v, translate/buf2coq.py: slice and Vec idioms into the model's list primitives, every Rust panic condition as a guard) and the hand-written model function is proved equal to it (=~ : equal up to the panic-site number) - an edit to the Rust function breaks this theorem (Buffer::erase, all seven modes) *)
+Theorem C07_source_erase : forall b col row m p, g_buffer_erase b col row m p =~ buf_erase b col row m p.
+Proof. exact tie_buffer_erase. Qed.
+Check C07_source_erase : forall b col row m p, g_buffer_erase b col row m p =~ buf_erase b col row m p.
+Print Assumptions C07_source_erase.
+
+(** Buffer::insert incl. the count clamp *)
+Theorem C07_source_insert : forall b col row n c, g_buffer_insert b col row n c =~ buf_insert b col row n c.
+Proof. exact tie_buffer_insert. Qed.
+Check C07_source_insert : forall b col row n c, g_buffer_insert b col row n c =~ buf_insert b col row n c.
+Print Assumptions C07_source_insert.
+
+(** Buffer::delete *)
+Theorem C07_source_delete : forall b col row n p, g_buffer_delete b col row n p =~ buf_delete b col row n p.
+Proof. exact tie_buffer_delete. Qed.
+Check C07_source_delete : forall b col row n p, g_buffer_delete b col row n p =~ buf_delete b col row n p.
+Print Assumptions C07_source_delete.
